@@ -320,6 +320,60 @@ def main():
     s.deliver([s.ev("a", i, F_RENAMED | F_IS_FILE), s.ev("b", i, F_RENAMED | F_IS_FILE)], [s.ev("b", i, F_REMOVED | F_IS_FILE)])
     s.check(problems)
 
+    # S11: an inode number is re-used: f created (batch 1); f written and removed - one coalesced created|modified|removed
+    # event (batch 2); a NEW file g is created and happens to get the freed inode number (batch 3): g's creation is a real one
+    s = Scenario("S11 create, coalesced create|modify|remove, new file with the re-used inode number")
+    s.start()
+    touch(os.path.join(s.root, "f"))
+    i = ino(os.path.join(s.root, "f"))
+    s.deliver([s.ev("f", i, F_CREATED | F_IS_FILE)])
+    os.unlink(os.path.join(s.root, "f"))
+    s.deliver([s.ev("f", i, F_CREATED | F_MODIFIED | F_REMOVED | F_IS_FILE)])
+    touch(os.path.join(s.root, "g"))
+    real_stat = os.stat
+
+    class _St:
+        def __init__(self, st, ino_):
+            self._st, self.st_ino = st, ino_
+
+        def __getattr__(self, n):
+            return getattr(self._st, n)
+
+    def fake_stat(path, *a, **k):
+        st = real_stat(path, *a, **k)
+        return _St(st, i) if os.fspath(path) == os.path.join(s.root, "g") else st
+    os.stat = fake_stat
+    try:
+        s.deliver([s.ev("g", i, F_CREATED | F_IS_FILE)])
+    finally:
+        os.stat = real_stat
+    s.check(problems)
+
+    # S12: two renames whose halves interleave in one batch (per-item coalescing moves the destination of the first behind
+    # the second rename): each is one moved event with both paths
+    for order in ("dest-last", "src-first"):
+        s = Scenario(f"S12 interleaved renames in one batch ({order})")
+        touch(os.path.join(s.root, "x.txt"))
+        os.mkdir(os.path.join(s.root, "d"))
+        s.start()
+        ix, idd = ino(os.path.join(s.root, "x.txt")), ino(os.path.join(s.root, "d"))
+        os.rename(os.path.join(s.root, "x.txt"), os.path.join(s.root, "y.txt"))
+        os.rename(os.path.join(s.root, "d"), os.path.join(s.root, "e"))
+        touch(os.path.join(s.root, "y.txt"), b"more")
+        if order == "dest-last":
+            batch = [s.ev("x.txt", ix, F_RENAMED | F_IS_FILE), s.ev("d", idd, F_RENAMED | F_IS_DIR), s.ev("e", idd, F_RENAMED | F_IS_DIR), s.ev("y.txt", ix, F_RENAMED | F_MODIFIED | F_IS_FILE)]
+        else:
+            batch = [s.ev("x.txt", ix, F_RENAMED | F_MODIFIED | F_IS_FILE), s.ev("d", idd, F_RENAMED | F_IS_DIR), s.ev("y.txt", ix, F_RENAMED | F_IS_FILE), s.ev("e", idd, F_RENAMED | F_IS_DIR)]
+        s.deliver(batch)
+
+        def exp12(events, problems, s=s, order=order):
+            fm = [(e.src_path, e.dest_path) for e in events if isinstance(e, FileMovedEvent)]
+            dm = [(e.src_path, e.dest_path) for e in events if isinstance(e, DirMovedEvent)]
+            if fm != [(os.path.join(s.root, "x.txt"), os.path.join(s.root, "y.txt"))] or dm != [(os.path.join(s.root, "d"), os.path.join(s.root, "e"))]:
+                problems.append(f"S12 ({order}): each rename inside the tree must be one moved event with both paths; file moves {fm}, directory moves {dm}; stream={events}")
+
+        s.check(problems, exp12)
+
     if problems:
         print("C20 VIOLATED:")
         for p in problems:
